@@ -296,3 +296,14 @@ NEUTRALS = [
       "should_checkpoint = (\n                checkpoint_every is not None\n                and checkpoint_every > 0\n                and iterations % checkpoint_every == 0\n            ) or force"),
     M("resize test mirrored", _U, "elif bdata.size != target[dsetname].shape[0]:", "elif target[dsetname].shape[0] != bdata.size:"),
 ]
+
+# functions the property is anchored in (auto-mutant sweep of the thorough tier)
+ANCHORS = [
+    'aspire.samplers.smc.base:SMCSampler.sample',
+    'aspire.samplers.smc.base:SMCSampler.sample.<locals>.maybe_checkpoint',
+    'aspire.utils:dump_pickle_to_hdf',
+    'aspire.utils:dump_state',
+    'aspire.samplers.base:Sampler.default_file_checkpoint_callback',
+    'aspire.samplers.base:Sampler.save_checkpoint_to_hdf',
+    'aspire.samplers.base:Sampler.load_checkpoint_from_file',
+]
